@@ -664,6 +664,57 @@ def run(prog, rep, tier):
     if len(rows) < 40:
         raise CheckerError("R14.10: CLI_FILTER_PATTERNS has only %d rows (expected >= 40)" % len(rows))
 
+    # ------------------------------------------------------------ R14.11 counts of a relative offset reach chrono's range check unscaled
+    # `+NwNdNhNmNs`: each N is parsed as i64 and handed to Duration::try_weeks/.../try_seconds, which
+    # reject what cannot be represented ("unparseable values ... are rejected").  Scaling or summing
+    # the counts in plain i64 arithmetic first wraps silently in a release build (no overflow checks):
+    # `@+144115188075855873w` would resolve to X+1w.  The only arithmetic allowed on a parsed count
+    # before the range-checked constructor is the multiplication by the sign (+1/-1).
+    from c05 import forward_taint as _ft14
+    R1411 = rep.rule("R14.11", "parsed offset counts are only multiplied by the sign before a range-checked Duration constructor")
+    wb_ = prog.body("s4::string_wdhms_to_duration")
+    srcs_ = [c for c in wb_.live_calls() if c.d.split("::")[-1] in ("from_str_radix", "parse", "from_str")]
+    if not srcs_:
+        raise CheckerError("string_wdhms_to_duration: no integer parse found")
+    tn_ = _ft14(wb_, {c.dest[0] for c in srcs_})
+    signs_ = {}
+    for k_, a_ in facts.adts.items():
+        if a_.get("kind") == "enum" and a_.get("variants") and all(str(v_.get("discr")) in ("1", "18446744073709551615", "-1") for v_ in a_["variants"]):
+            signs_[k_] = True
+    unchecked = []
+    nar = 0
+    for bb in sorted(wb_.live):
+        for st in wb_.stmts(bb):
+            if st[0] == "=" and st[2][0] == "bin" and st[2][1].replace("WithOverflow", "").replace("Unchecked", "") in ("Mul", "Add", "Sub", "Shl"):
+                ops_ = (st[2][2], st[2][3])
+                tainted = [o for o in ops_ if o[0] in ("cp", "mv") and o[1][0] in tn_]
+                if not tainted:
+                    continue
+                nar += 1
+                other = [o for o in ops_ if o not in tainted]
+                ok_ = st[2][1].startswith("Mul") and len(other) == 1 and other[0][0] != "k" and bool(wb_.origins(other[0])) and all(x[0] == "discr" for x in wb_.origins(other[0]))
+                if ok_:
+                    # the discriminant must be that of a +1/-1 enum
+                    for x in wb_.origins(other[0]):
+                        src_st = wb_.stmts(x[1])[x[2]]
+                        ty_ = wb_.local_ty(src_st[2][1][0]) if src_st[2][0] == "discr" else None
+                        if ty_ not in signs_:
+                            ok_ = False
+                if not ok_:
+                    unchecked.append((st[2][1], st[3]))
+    for c in wb_.live_calls():
+        nm_ = c.d.split("::")[-1]
+        op_trait = "ops::" in (c.o or c.d) and nm_ in ("mul", "add", "sub", "shl", "mul_assign", "add_assign", "sub_assign") and any(t_ in (c.callee.get("self") or "") for t_ in ("i64", "i32", "u64", "u32", "isize", "usize", "i128"))
+        if (nm_ in ("wrapping_mul", "wrapping_add", "saturating_mul", "saturating_add", "pow", "wrapping_pow", "unchecked_mul") or op_trait) and any(a[0] in ("cp", "mv") and a[1][0] in tn_ for a in c.args):
+            unchecked.append((nm_, c.line))
+    tries_ = [c.d.split("::")[-1] for c in wb_.live_calls() if c.d.split("::")[-1].startswith("try_") and ("TimeDelta" in c.d or "Duration" in c.d)]
+    rep.examined(R1411, wb_.path + "|count-arithmetic", sample={"integer_parses": len(srcs_), "arithmetic_on_counts": nar, "not_sign_multiplication": unchecked, "range_checked_constructors": tries_})
+    if unchecked:
+        rep.violation(R1411, wb_.path + "|count-arithmetic|unchecked", "string_wdhms_to_duration (line %d): a parsed count goes through %s in plain i64 arithmetic before any range check; in a release build a large count wraps, "
+                      "so `@+144115188075855873w` is resolved to an unrelated instant instead of being rejected" % (unchecked[0][1], unchecked[0][0]))
+    if len(tries_) < 1:
+        rep.violation(R1411, wb_.path + "|count-arithmetic|no-range-check", "string_wdhms_to_duration: no range-checked Duration constructor (try_*) receives the counts")
+
     return rep.finish(
         "Static necessary-condition check of the CLI datetime-filter path: the relative-offset grammar is anchored (regular-language analysis of "
         "the const-evaluated pattern), a bare date is completed to 00:00:00 in value and pattern together, zone-less values are parsed in the "
